@@ -16,6 +16,7 @@ import (
 	"crypto/sha256"
 	"encoding/json"
 	"fmt"
+	"os"
 	"strings"
 	"sync"
 	"time"
@@ -463,6 +464,27 @@ func main() {
 	if len(cases) == 0 {
 		c.Fatal("Authorization printed no cases")
 	}
+	if c.Replay != "" {
+		if chain.Replay(c, chain.RunOpts{}) {
+			c.Finish()
+		}
+		b, _ := os.ReadFile(c.Replay)
+		var f struct {
+			What string   `json:"what"`
+			Case authCase `json:"case"`
+		}
+		if json.Unmarshal(b, &f) != nil || f.Case.Shape == "" {
+			c.Fatal("replay file holds neither a behaviour nor an authorisation case")
+		}
+		fmt.Printf("replaying authorisation case %+v; required: %s must not happen\n", f.Case, f.What)
+		var keep []authCase
+		for _, ac := range cases {
+			if ac.Shape == f.Case.Shape && ac.Tamper == f.Case.Tamper {
+				keep = append(keep, ac)
+			}
+		}
+		cases = keep
+	}
 	var mu sync.Mutex
 	cells := map[string]int{}
 	nontriv := int64(0)
@@ -518,6 +540,12 @@ func main() {
 	c.Cov("authorisation_cells", cells)
 	c.Traces(int64(len(cases)))
 	c.Count(int64(len(cases)), nontriv)
+	if c.Replay != "" {
+		if c.NViolations() == 0 {
+			fmt.Println("observed: the saved case no longer violates the property on this tree")
+		}
+		c.Finish()
+	}
 	c.Sample(cases[len(cases)/2])
 
 	// design level: the ledger model with the authorisation defects (a transaction with a defective authorisation
